@@ -454,8 +454,11 @@ func genFull(seed int64, property string) *Plan {
 	case "C11":
 		rich = true
 		nJC, nAdhoc, nIndep = 1+r.Intn(2), 1+r.Intn(3), 1+r.Intn(3)
-		weights = map[string]int{"ok": 8, "fail": 5, "oom": 1, "slow": 3, "evict": 2, "flap": 4, "hang": 1, "unschedulable": 1}
+		weights = map[string]int{"ok": 8, "fail": 5, "oom": 1, "slow": 3, "evict": 2, "flap": 4, "hang": 1, "unschedulable": 1, "racefinish": 3}
 		kills = true
+		if r.Intn(2) == 0 {
+			p.Dyn.DefaultPendingSec = i64(int64(4 + r.Intn(10)))
+		}
 		faulty = r.Intn(2) == 0
 	case "C12":
 		rich = true
@@ -610,6 +613,16 @@ func genFull(seed int64, property string) *Plan {
 		jc2 := jc
 		jc2.LastScheduled, jc2.LastUpdated = nil, nil
 		p.Ops = append(p.Ops, UserOp{AtMs: at + int64(500+r.Intn(8000)), Kind: "createJobConfig", NS: jc.NS, Name: jc.Name, JC: &jc2})
+	}
+	if property == "C13" && r.Intn(3) == 0 {
+		// a Job deleted right after it was started, while the Pod cache lags behind
+		t := g.template(false)
+		jp := JobPlan{NS: "default", Name: "brief-0", Template: &t}
+		at := int64(2000 + r.Intn(int(durMs/2)))
+		life := int64(50 + r.Intn(1500))
+		p.Ops = append(p.Ops, UserOp{AtMs: at, Kind: "createJob", NS: "default", Name: jp.Name, Job: &jp})
+		p.Ops = append(p.Ops, UserOp{AtMs: at + life, Kind: "deleteJob", NS: "default", Name: jp.Name})
+		p.Lags = append(p.Lags, LagPlan{AtMs: at - 200, DurMs: life + 1000 + int64(r.Intn(6000)), Res: "pods"})
 	}
 	if property == "C15" && r.Intn(3) == 0 {
 		// a queued Job that lives and dies entirely while the JobConfig cache is held
